@@ -149,6 +149,7 @@ func supportedParam(t reflect.Type) bool {
 
 func newSession(e modelEntry, r *rand.Rand) *session {
 	s := &session{entry: e, r: r, g: pbgen.New(r), tr: newTracker()}
+	s.g.Density, s.g.MaxDepth = 0.4, 2
 	s.model = reflect.ValueOf(e.New())
 	t := s.model.Type()
 	seenTy := map[protoreflect.FullName]bool{}
@@ -609,7 +610,7 @@ func runModelSeq(ms modelSeq, mon *lib.Monitor) int {
 		calls++
 		mon.Count("call:" + e.Pkg + "." + method)
 		for _, c := range s.tr.changed() {
-			sig := fmt.Sprintf("C07/%s/%s/changed-by/%s", e.key(), c.Origin, method)
+			sig := fmt.Sprintf("C07/%s/changed-by/%s", e.key(), method)
 			input := map[string]any{"kind": "model", "model": ms.Model, "seed": ms.Seed, "seq": ms.Seq, "steps": i + 1, "trace": tail(s.trace, 12)}
 			mon.Violate(sig, fmt.Sprintf("a message obtained at step %d (%s) changed after step %d (%s)", c.Step, c.Origin, i, method),
 				input, txt(c.copy), txt(c.ptr))
@@ -636,7 +637,7 @@ func runModels(f lib.Flags, res *lib.Result) {
 			"(ctx, proto messages, strings from a small pool + harvested ids, numbers, read/write options, caller edits of messages passed earlier); "+
 			"every proto message reachable from a return value or a stream event is deep-copied when first seen and compared after every later step; "+
 			"non-trivial = a sequence that produced at least two tracked messages")
-	nseq := f.N(30, 600)
+	nseq := f.N(60, 1500)
 	steps := 24
 	type job struct{ ms modelSeq }
 	names := make([]string, 0, len(modelTable))
